@@ -138,7 +138,21 @@ def symmetry_pass(ctx, tag='C01'):
         shutil.rmtree(tmp, ignore_errors=True)
 
 
-def notification_pass(ctx, tag='C05', trace=None, only=None):
+def local_asymmetry(objs):
+    """among the objects of the loaded resource (proxies to elsewhere aside): y in x.f exactly when x in y.g"""
+    ids = {id(o) for o in objs}
+    for x in objs:
+        for f in _refs(x):
+            g = f.eOpposite
+            if g is None:
+                continue
+            for y in _vals(x, f):
+                if id(y) in ids and not any(z is x for z in _vals(y, g)):
+                    return f'{x.eClass.name}.{f.name} holds a local object whose {g.name} does not hold it back'
+    return None
+
+
+def notification_pass(ctx, tag='C05', trace=None, only=None, judge='mirror'):
     from pyecore.notification import EObserver
     n = 60 if ctx.quick() else 1200
     nops = 12 if ctx.quick() else 20
@@ -161,6 +175,9 @@ def notification_pass(ctx, tag='C05', trace=None, only=None):
                        if hasattr(v, '_proxy_path') and not v.resolved]
             if not proxies:
                 ctx.count('cross/no-unresolved-proxy')
+                continue
+            if judge == 'symmetry' and local_asymmetry(objs):
+                ctx.count('cross/not-symmetric-as-loaded')
                 continue
             mirror = {(id(o), f.name): raw(o, f) for o in objs for f in _refs(o)}
             seen, seen_res = [], []
@@ -243,6 +260,14 @@ def notification_pass(ctx, tag='C05', trace=None, only=None):
                                 m.remove(id(v))
                 ctx.nontriv(('cross', h, step))
                 bad = None
+                if judge == 'symmetry':
+                    bad = local_asymmetry(objs)
+                    if bad:
+                        ctx.violate({'clause': 'sym-unresolved-proxies', 'format': fmt, 'value': kind, 'many': bool(f.many)},
+                                    f'after `{what}` on a model loaded from a {fmt} resource with unresolved cross references: {bad}',
+                                    {'case': h, 'format': fmt, 'calls': log})
+                        break
+                    continue
                 for o in objs:
                     for g in _refs(o):
                         if g.derived:
